@@ -239,7 +239,7 @@ def stage(ctx, quick=False):
     """runs in C03 (inner calls, DeepLinear drift) and in C14 (argument / configuration / reuse flags)"""
     res = ctx.model("DeepLinear", MCFG, dump=True)
     inits = sorted({(s["cfg"]["d"], s["cfg"]["inner"], s["cfg"]["max_iter"], s["stop_at"]) for s in res["states"] if s["st"]["pc"] in ("askX", "return") and s["st"]["nh"] == 0
-                    and all(v == 0 for v in s["st"]["ver"]) and s["lastask"] == []})
+                    and all(v == 0 for v in s["st"]["ver"]) and s["lastask"]["kind"] == "none"})
     jobs = []
     for i, (d, inner, mi, stop_at) in enumerate(inits):
         if stop_at > mi:
